@@ -1636,7 +1636,7 @@ Qed.
 
 (* C08 lookup_consistent: by index, by name and by 'Parent.Child' the same object is reached *)
 Theorem lookup_consistent base objs : blank base ->
-  NoDup (map obj_index objs) -> NoDup (map obj_name objs) -> Forall (fun o => no_dot (obj_name o)) objs ->
+  NoDup (map obj_index objs) -> NoDup (map obj_name objs) ->
   forall p o, nth_error objs p = Some o ->
   od_get_int (built objs base) (obj_index o) = Ok (p, o) /\
   od_get (built objs base) (KI (obj_index o)) = Ok (LObj p o) /\
@@ -1644,9 +1644,10 @@ Theorem lookup_consistent base objs : blank base ->
   (forall c0 vars v, o = OCont (filled c0 vars) -> c_subs c0 = [] -> c_names c0 = [] ->
      NoDup (map v_sub vars) -> NoDup (map v_name vars) -> In v vars ->
      obj_get o (KI (v_sub v)) = Ok v /\ obj_get o (KS (v_name v)) = Ok v /\
-     od_get (built objs base) (KS (obj_name o ++ 46 :: v_name v)) = Ok (LVar p v)).
+     (Forall (fun o => no_dot (obj_name o)) objs ->
+      od_get (built objs base) (KS (obj_name o ++ 46 :: v_name v)) = Ok (LVar p v))).
 Proof.
-  intros Hb Hi Hn Hd p o Hp. destruct (built_tables base Hb objs Hi Hn) as (T1 & T2 & T3 & T4).
+  intros Hb Hi Hn p o Hp. destruct (built_tables base Hb objs Hi Hn) as (T1 & T2 & T3 & T4).
   destruct (T2 p o Hp) as (Z1 & S1).
   assert (G : od_get_int (built objs base) (obj_index o) = Ok (p, o)).
   { unfold od_get_int. rewrite Z1, T1, Hp. reflexivity. }
@@ -1658,7 +1659,7 @@ Proof.
     destruct (filled_tables c0 B1 B2 vars Vs Vn) as (F1 & F2 & F3). destruct (F1 v Hv) as (A1 & A2).
     split; [cbn [obj_get]; unfold cont_get_int; rewrite A1; reflexivity|].
     split; [cbn [obj_get]; unfold cont_get_str; rewrite A2; reflexivity|].
-    cbn [od_get obj_name].
+    intros Hd. cbn [od_get obj_name].
     assert (Nd : no_dot (c_name (filled c0 vars))).
     { rewrite Forall_forall in Hd. apply (Hd _ (nth_error_In _ _ Hp)). }
     assert (Miss : names_get (built objs base) (c_name (filled c0 vars) ++ 46 :: v_name v) = None).
@@ -1901,6 +1902,73 @@ Proof. reflexivity. Qed.
 
 Lemma devinfo_table_ok : DEVINFO_IMPORT = DEVINFO_ROWS /\ BAUD_RATES = STD_RATES.
 Proof. split; reflexivity. Qed.
+
+(* ================================================================== whole numbers in REAL objects
+   (var.default = -40 on a REAL32: written as str(int), read by float()) *)
+Lemma take_digits_dec_u v : 0 <= v -> take_digits (dec_u v) = (dec_u v, []).
+Proof.
+  intros Hv. destruct (digits_spec 10 v ltac:(lia) Hv) as (_ & D & _). unfold dec_u.
+  induction D as [|d r Hd Hr IH]; [reflexivity|]. cbn [map take_digits].
+  replace ((48 <=? 48 + d) && (48 + d <=? 57)) with true by lia. rewrite IH. reflexivity.
+Qed.
+
+Lemma decval_dec_u v : 0 <= v -> decval (dec_u v) = v.
+Proof.
+  intros Hv. destruct (digits_spec 10 v ltac:(lia) Hv) as (P & _ & _). unfold decval, dec_u.
+  assert (G : forall ds a, fold_left (fun a c => a * 10 + (c - 48)) (map (fun d => 48 + d) ds) a = pval 10 ds a).
+  { induction ds as [|d r IH]; intros a; [reflexivity|]. cbn [map fold_left]. unfold pval. cbn [fold_left].
+    replace (a * 10 + (48 + d - 48)) with (a * 10 + d) by lia. apply IH. }
+  rewrite G. exact P.
+Qed.
+
+Lemma float_body_dec_u v : 0 <= v -> float_body (dec_u v) = Some (fnorm v 0).
+Proof.
+  intros Hv. unfold float_body. rewrite take_digits_dec_u by exact Hv. cbn iota beta.
+  rewrite app_nil_r, decval_dec_u by exact Hv.
+  destruct (spell_nat_spec SpDec v Hv) as (_ & _ & c & t & E & _). cbn [spell_nat] in E.
+  rewrite E. cbn [length]. cbn [Nat.add Nat.eqb]. reflexivity.
+Qed.
+
+Lemma float_parse_dec z :
+  float_parse (dec z) = Some (if z <? 0 then (- fst (fnorm (- z) 0), snd (fnorm (- z) 0)) else fnorm z 0).
+Proof.
+  unfold float_parse, dec. destruct (z <? 0) eqn:E.
+  - destruct (spell_nat_spec SpDec (- z) ltac:(lia)) as (_ & Pl & _). cbn [spell_nat] in Pl.
+    rewrite strip_nospace by (constructor; [reflexivity|exact Pl]).
+    rewrite Z.eqb_refl. rewrite float_body_dec_u by lia. reflexivity.
+  - destruct (spell_nat_spec SpDec z ltac:(lia)) as (_ & Pl & c & t & Ec & H1 & H2). cbn [spell_nat] in *.
+    rewrite strip_nospace by exact Pl. rewrite Ec.
+    replace (c =? 45) with false by lia. replace (c =? 43) with false by lia. rewrite <- Ec.
+    apply float_body_dec_u. lia.
+Qed.
+
+(* the normal form denotes the same number *)
+Lemma norm10_value fuel : forall m e, 0 <= e -> let p := norm10 fuel m e in fst p * 10 ^ snd p = m * 10 ^ e /\ 0 <= snd p.
+Proof.
+  induction fuel as [|f IH]; intros m e He; cbn [norm10]; [split; [reflexivity|exact He]|].
+  destruct (m =? 0) eqn:E0; [cbn; split; lia|].
+  destruct (m mod 10 =? 0) eqn:E1; [|split; [reflexivity|exact He]].
+  destruct (IH (m / 10) (e + 1) ltac:(lia)) as (A & B). cbn zeta in *. split; [|exact B].
+  rewrite A. rewrite Z.pow_add_r by lia. change (10 ^ 1) with 10.
+  assert (m = 10 * (m / 10)) by (rewrite (Z.div_mod m 10) at 1 by lia; lia). nia.
+Qed.
+
+(* C14: a whole number held as a Python int by a REAL object survives export and import as that number *)
+Theorem real_int_roundtrip nid dt z : is_bytes_type dt = false -> is_text_type dt = false -> zmem dt FLOAT_TYPES = true ->
+  exists m e, revert_variable dt (PVInt z) = Some (dec z) /\
+              convert_variable nid dt (dec z) = Some (PVFloat m e) /\ 0 <= e /\ m * 10 ^ e = z.
+Proof.
+  intros B T F. unfold revert_variable, convert_variable. rewrite B, T, F, float_parse_dec.
+  destruct (z <? 0) eqn:E.
+  - destruct (norm10_value (S (Z.to_nat (Z.log2 (Z.abs (- z))))) (- z) 0 ltac:(lia)) as (A & Hb). cbn zeta in *.
+    fold (fnorm (- z) 0) in A, Hb. destruct (fnorm (- z) 0) as [m e]. cbn [fst snd] in *.
+    exists (- m), e. split; [reflexivity|]. split; [reflexivity|]. split; [exact Hb|].
+    change (10 ^ 0) with 1 in A. lia.
+  - destruct (norm10_value (S (Z.to_nat (Z.log2 (Z.abs z)))) z 0 ltac:(lia)) as (A & Hb). cbn zeta in *.
+    fold (fnorm z 0) in A, Hb. destruct (fnorm z 0) as [m e]. cbn [fst snd] in *.
+    exists m, e. split; [reflexivity|]. split; [reflexivity|]. split; [exact Hb|].
+    change (10 ^ 0) with 1 in A. lia.
+Qed.
 
 (* ================================================================== export_od: destination and document type *)
 Lemma export_type_explicit dest t : t = s "eds" \/ t = s "dcf" ->
